@@ -215,7 +215,19 @@ class ScoOperationsRegistry(AbstractScoOperationsRegistry):
     ) -> InvocationState:
         """Handle operation immediately or delayed in worker thread, depending on operation.delayed_processing."""
         if operation.delayed_processing:
-            self._worker.enqueue_operation(operation, request, operation_request, transaction_id)
+            try:
+                self._worker.enqueue_operation(operation, request, operation_request, transaction_id)
+            except queue.Full:
+                self._logger.error('operations queue is full, operation "%s" rejected', operation.handle)
+                self._set_service.notify_operation(
+                    operation,
+                    transaction_id,
+                    InvocationState.FAILED,
+                    self._mdib.mdib_version_group,
+                    error=InvocationError.OTHER,
+                    error_message='too many pending operations',
+                )
+                return InvocationState.FAILED
             return InvocationState.WAIT
         try:
             execute_result = operation.execute_operation(request, operation_request)
